@@ -148,13 +148,13 @@ let rec rand_type r depth : tdesc =
 
 let rand_word r = String.init (rrange r 0 6) (fun _ -> Char.chr (rrange r 0x61 0x7a))
 
-let rec rand_value r (t : tdesc) : v =
+let rec rand_value ?(nil1in = 5) r (t : tdesc) : v =
   VSt (t, List.map (fun f -> match f.fk with
       | KStr -> VS (rand_word r)
       | KInt -> VI (rrange r (-5) 99)
-      | KEmb (false, t') -> rand_value r t'
+      | KEmb (false, t') -> rand_value ~nil1in r t'
       | KEmb (true, t') ->
-          if (not (no_nil_embedded t)) && rint r 5 = 0 then VNilPtr t' else VPtr (rand_value r t')) t.fields)
+          if (not (no_nil_embedded t)) && rint r nil1in = 0 then VNilPtr t' else VPtr (rand_value ~nil1in r t')) t.fields)
 
 let rand_leaf r = if rbool r then VS (rand_word r) else VI (rrange r (-5) 99)
 
@@ -190,11 +190,16 @@ let emit_history oc ~stream (vals : v array) (steps : step list) =
   let hist = List.map (fun s -> ((if s.dot then ADot else AIndex), mvals.(s.vi)), b s.name) steps in
   (* answers with the cache threaded through the whole history *)
   let answers = attr_run_answers attr_oracle_front hist attr_cache_empty in
+  (* Self-checks of the model never stop the generation: when the translator read a different shape from the
+     tree under test (flags in Gen/AttrConsts.v), the model follows it and may leave the proved envelope; the
+     cases are still written, with a note, so that the runner's model-independent oracles can find a failing input. *)
+  let notes = ref [] in
+  let note m = if not (List.mem m !notes) then notes := m :: !notes in
   let js = List.map2 (fun s a ->
       let acc = if s.dot then ADot else AIndex in
       let res = attr_resolve acc mvals.(s.vi) (b s.name) in
       (* C20_history_answers: the cached answer is the uncached one; the driver re-checks it *)
-      if enc res <> enc a then (prerr_endline "c20: cached answer differs from attr_resolve (contradicts C20_cache_transparent)"; exit 3);
+      if enc res <> enc a then note "cached answer differs from attr_resolve";
       let spec = attr_spec_lookup acc mvals.(s.vi) (b s.name) in
       let base = [ "v", JI s.vi; "a", JS (if s.dot then "dot" else "idx"); "n", JS s.name; "exp", JS (enc a); "spec", JS (enc spec) ] in
       (* the known class: dot access on a typed map while the code has no branch for it (the model follows the
@@ -213,11 +218,10 @@ let emit_history oc ~stream (vals : v array) (steps : step list) =
   let cache_len =
     if distinct <= int_of_z attr_max_size then begin
       let n = int_of_nat (attr_cache_len (attr_run attr_oracle_front hist attr_cache_empty)) in
-      if n <> distinct then (prerr_endline "c20: model cache length differs from the number of distinct keys"; exit 3);
-      n end
+      if n <> distinct then (note "model cache length differs from the number of distinct keys"; -1) else n end
     else -1 in
   emit oc (Ob [ "stream", JS stream; "values", JL (Array.to_list (Array.map jv vals)); "steps", JL js;
-                "distinct_keys", JI distinct; "cache_len", JI cache_len ])
+                "distinct_keys", JI distinct; "cache_len", JI cache_len; "model_notes", JL (List.map (fun m -> JS m) !notes) ])
 
 let shuffle r (a : 'a array) =
   for i = Array.length a - 1 downto 1 do
@@ -278,6 +282,57 @@ let flood_case r oc =
   let steps = first @ flood_steps 0 nflood @ again first @ second @ again first in
   emit_history oc ~stream:"flood" vals steps
 
+(* Hot floods: the cache is filled with entries that have each been hit at least four times (an eviction
+   that spares frequently used entries then finds nothing to evict), and only then the probing lookups miss:
+   by-value structs with pointer-receiver methods, nil embedded pointers, promoted fields and methods.
+   Variant A: probes first (cold entries), then more than maxSize + cold + numToEvict pairs each looked up four
+   times in a row, then the probes again.  Variant B: from the empty cache, exactly maxSize pairs in four
+   round-robin passes (no eviction on the way), then the probes. *)
+let hot_probe_values r : v list =
+  let byval = List.map (fun t -> rand_value r t) [ c_ptrm; c_outer; c_inner; c_om; c_amb; c_deep; c_ue; c_shadow; c_plain ] in
+  let nils = [ VSt (c_uep, [ VNilPtr c_uinner; VS (rand_word r) ]); rand_value r c_uep ] in
+  let dyn = List.init 4 (fun _ ->
+      (* at least one embedded pointer at the top, nil half of the time, with promoted fields behind it *)
+      let inner = rand_type r 1 in
+      let t = rand_type r 2 in
+      let t = { t with fields = { fn = "Emb"; fk = KEmb (true, inner) } :: t.fields } in
+      rand_value ~nil1in:2 r t) in
+  let ptrs = [ VPtr (rand_value r c_ptrm); VPtr (rand_value r c_outer) ] in
+  byval @ nils @ dyn @ ptrs
+
+let hot_case r oc ~variant_b =
+  let maxsize = int_of_z attr_max_size and nevict = int_of_nat attr_num_to_evict in
+  let probes = Array.of_list (hot_probe_values r) in
+  let np = Array.length probes in
+  let probe_steps () =
+    let a = Array.of_list (List.concat (List.init np (fun vi ->
+        let own = match probes.(vi) with
+          | VSt (t, _) | VPtr (VSt (t, _)) ->
+              List.map (fun m -> m.mn) t.meths @ List.concat_map (fun f -> f.fn :: (match f.fk with KEmb (_, t') -> List.map (fun g -> g.fn) t'.fields | _ -> [])) t.fields
+          | _ -> [] in
+        let names = List.sort_uniq compare (own @ List.filter (fun _ -> rint r 4 = 0) (Array.to_list lookup_names)) in
+        List.map (fun n -> { vi; dot = true; name = n }) names))) in
+    shuffle r a; Array.to_list a in
+  let first = probe_steps () in
+  let ncold = List.length (List.sort_uniq compare (List.map (fun s -> (s.vi, s.name)) first)) in
+  let names = Array.to_list pool in
+  let npairs = if variant_b then maxsize else maxsize + ncold + nevict + rrange r 20 60 in
+  let nfill = (npairs + List.length names - 1) / List.length names in
+  let fill = Array.init nfill (fun k ->
+      let t = rand_type r (rint r 2) in
+      let t = { t with fields = t.fields @ [ fi (Printf.sprintf "H%d" k) ] } in
+      let x = rand_value r t in if rint r 4 = 0 then VPtr x else x) in
+  let vals = Array.append probes fill in
+  let pairs = Array.of_list (List.concat (List.init nfill (fun k -> List.map (fun n -> { vi = np + k; dot = true; name = n }) names))) in
+  shuffle r pairs;
+  let pairs = Array.sub pairs 0 (min npairs (Array.length pairs)) in
+  let hot =
+    if variant_b then List.concat (List.init 4 (fun _ -> let a = Array.copy pairs in shuffle r a; Array.to_list a))
+    else List.concat_map (fun s -> [ s; s; s; s ]) (Array.to_list pairs) in
+  let again l = let a = Array.of_list l in shuffle r a; Array.to_list a in
+  let steps = if variant_b then hot @ first @ again first else first @ hot @ again first @ again first in
+  emit_history oc ~stream:(if variant_b then "hot-exact" else "hot-flood") vals steps
+
 let run ~seed ~tier oc =
   let r = mk_rng seed in
   emit oc (Ob [ "stream", JS "catalogue-mirror"; "catalogue", JL (List.map jmirror catalogue);
@@ -286,4 +341,5 @@ let run ~seed ~tier oc =
   let thorough = tier = "thorough" in
   flood_case r oc;
   for _ = 1 to (if thorough then 6000 else 400) do small_case r oc done;
-  for _ = 1 to (if thorough then 40 else 4) do flood_case r oc done
+  for _ = 1 to (if thorough then 40 else 4) do flood_case r oc done;
+  for i = 1 to (if thorough then 12 else 2) do hot_case r oc ~variant_b:(i mod 2 = 0) done
